@@ -53,6 +53,70 @@ PROPS = {
         level_note='Assumes io.BytesIO/TemporaryFile library contract, max_body_size None or >= 0, buff_size >= 1; trusts pyvc and the solvers.',
         trusted_base=['server read(n) contract (PEP 3333)', 'io.BytesIO/TemporaryFile write/getvalue (library contract)'],
     ),
+    'C14': dict(
+        level='proof',
+        contracts=['C14'],
+        frames=['codec_lemma'],
+        technique='deductive: VCs from the real AST of _hval, HeaderDict.__setitem__/append/setdefault, HeaderProperty.__set__, '
+                  'BaseResponse.__init__ (data-structure invariant Clean(dict)); complete per-code-point enumeration of the emission '
+                  'transcoding; bounded run-time contract check of headerlist',
+        explanation='_hval accepts exactly None/str/int/float/bool, rejects CR/LF/NUL, returns str(value); every single-value '
+                    'setter stores only _hval results (Clean(dict) preserved for all arguments); callers reach the dictionary only '
+                    'through the guarded setters; the UTF-8->Latin-1 transcoding of headerlist is wire-safe and invertible for every code point.',
+        level_text='Proof that a value with CR/LF/NUL is rejected by every single-value setter and never stored (all values, all types); '
+                   'complete enumeration for the codec clause. That headerlist emits exactly the stored values (order, multi-values, '
+                   '204/304 blacklist) is decided by the bounded contract check only.',
+        level_note='Assumes str(int)/str(float) are control-character free, codecs are concatenation homomorphisms; a list offered to '
+                   'setdefault is stored unguarded (outside the statement: single-value setters). headerlist clause: bounded.',
+        trusted_base=['Clean(dict) holds on entry of every setter (re-established by every contracted writer)'],
+    ),
+    'C15': dict(
+        level='other',
+        contracts=[],
+        frames=[],
+        technique='bounded run-time contract check (round trip through set_cookie -> Set-Cookie -> Cookie -> get_cookie; exhaustive '
+                  'single-position tampering of signed cookies with an instrumented unpickler); pyvc contracts on _lscmp/cookie_decode pending',
+        explanation='BOUNDED: cookie round trip and forgery rejection checked on the real code over the listed value/secret/tamper space.',
+        level_text='Bounded contract check of the real functions (never counted as proved).',
+        level_note='HMAC unforgeability is an assumption in any case; SimpleCookie transport is library code.',
+    ),
+    'C16': dict(
+        level='proof',
+        contracts=['static_file'],
+        frames=[],
+        technique='deductive: path-sensitive VCs from the real AST of static_file: every file-system access is dominated by the prefix '
+                  'test of the normalised name against the normalised root + separator; bounded check on a real directory tree as replay harness',
+        explanation='Every exists/isfile/access/stat/open call in static_file is made on the single name abspath(join(abspath(root)+sep, '
+                    'stripped name)) and only under the path condition that this name starts with abspath(root)+sep; all other paths return 403/404 without opening anything.',
+        level_text='Proof (all names, all roots): containment is decided by the path condition at each file-system call site of the real source.',
+        level_note='"Inside" is lexical as in the statement (normalised location has normalised root + separator as prefix); os.path.abspath/join are '
+                   'uninterpreted library functions assumed not to touch the file; symlinks are outside the statement.',
+        trusted_base=['os.path.abspath / join / str.strip as uninterpreted pure functions'],
+    ),
+    'C17': dict(
+        level='proof',
+        contracts=['C17', 'static_file'],
+        frames=[],
+        technique='deductive: VCs from the real AST of get_first_range (== RFC 7233 first-range clipping as a z3 term), _file_iter_range '
+                  '(loop invariant: exactly file[s:e], chunks <= maxread) and the header assembly of static_file; bounded check on real files as replay harness',
+        explanation='get_first_range returns exactly the first byte-range-spec clipped to the file or None iff unsatisfiable/unparsable; '
+                    '_file_iter_range yields exactly that slice in chunks <= maxread; static_file uses the same (s,e) for Content-Range, '
+                    'Content-Length and the body, 416 iff no range, whole file with true length otherwise, 304 iff not modified, HEAD without body.',
+        level_text='Proof for all headers, file sizes and read fragmentations, relative to int() as a partial function.',
+        level_note='int() is abstract (what counts as a number is Python\'s); date parsing (parse_date) is library code and is bounded only; '
+                   'a present If-Modified-Since header is assumed non-empty.',
+        trusted_base=['file object contract seek/read', 'int(str) partial-function abstraction'],
+    ),
+    'C20': dict(
+        level='other',
+        contracts=[],
+        frames=['codec_lemma'],
+        technique='complete per-code-point enumeration of html_escape / html.escape (every code point neutralised) + bounded run-time '
+                  'contract check of every framework error page (skeleton comparison, JSON validity); pyvc contracts on render pending',
+        explanation='Escaping functions decided by complete enumeration; data flow into the pages BOUNDED.',
+        level_text='Complete enumeration for the escaping functions; bounded contract check for the pages (never counted as proved).',
+        level_note='str.replace with a 1-character needle acts per character (sampled).',
+    ),
 }
 
 NOT_APPLICABLE = {}
